@@ -271,20 +271,19 @@ Fixpoint set_first_href (href : str) (l : list aattr) : option (list aattr) :=
       else match set_first_href href r with Some r' => Some (a :: r') | None => None end
   end.
 
-Definition insert_href (n : anode) (text : str) : anode :=
+(* node.attributes after insert_href(node, text) *)
+Definition href_attrs (text : str) (at_ : option (list aattr)) : option (list aattr) :=
   match href_value text with
   | Some ((_ :: _) as href) =>                                   (* `if href:` *)
-      match n with
-      | ANode nm v rp at_ ch sc =>
-          let fresh := mkAAttr (Some s_href) (Some (str_value href)) VRaw false false false in
-          ANode nm v rp
-                (Some match nonempty at_ with
-                      | Some l => match set_first_href href l with Some l' => l' | None => l ++ [fresh] end
-                      | None => [fresh]
-                      end) ch sc
-      end
-  | _ => n
+      let fresh := mkAAttr (Some s_href) (Some (str_value href)) VRaw false false false in
+      Some match nonempty at_ with
+           | Some l => match set_first_href href l with Some l' => l' | None => l ++ [fresh] end
+           | None => [fresh]
+           end
+  | _ => at_
   end.
+Definition insert_href (n : anode) (text : str) : anode :=
+  match n with ANode nm v rp at_ ch sc => ANode nm v rp (href_attrs text at_) ch sc end.
 
 (* what convert() does to the deepest node with the whole wrap text *)
 Definition insert_wrap (env : cenv) (n : anode) (tx : str) : anode :=
